@@ -12,7 +12,8 @@ Correspondence (model driver `drv_date` vs the real pyrealb, same lines):
 Direct oracle (independent of the model, on the text the implementation returned): the numbers printed are exactly
 the values of the selected fields (12-hour clock 1..12 in English, 24-hour in French), weekday / month names are
 those of the calendar date, a.m./p.m. present and right in English, noon / midnight wording only at 12:00 / 00:00,
-relative wording denotes the signed day difference; any exception is a failure.
+relative wording denotes the signed day difference; the numeric fields are read positionally by the language's
+convention (English month/day/year, French day/month/year; hour, minute, second); any exception is a failure.
 Every failure is shrunk (rtime dropped, date part / time part separated, values moved to a canonical instant,
 nat/det reset to their defaults, each step kept only if the same kind of failure persists) and the shrunk input is
 the signature.
@@ -38,8 +39,8 @@ META = {
                  "tables; case analysis for all day differences) + differential correspondence + direct oracle",
     "level_text": "Kernel-checked: toordinal +1 across every day/month/year/leap boundary and strictly monotone, weekday "
                   "advances by one (all dates); for the shipped tables of both languages, regenerated from the repository on "
-                  "every run: placeholders of every format cell = selected fields (refuted: cells listed), 12/24-hour clock "
-                  "over all 24 hours (refuted for hour%12=0 and one English cell), noon/midnight selection iff 00:00:00 / "
+                  "every run: placeholders of every format cell = selected fields (refuted: the 7 subsets without a format), 12/24-hour "
+                  "clock over all 24 hours and every cell showing the hour (holds), noon/midnight selection iff 00:00:00 / "
                   "12:00:00, relative wording denotes the signed difference for every difference, exact characterisation of "
                   "the inputs on which dateFormat raises.",
     "level_note": "Trusted: Lean kernel; the translator; the model/implementation correspondence (differential, finite); "
@@ -342,6 +343,27 @@ def check_text(line, text):
         errs.append(("meridiem", "meridiem %r, expected %r at hour %d" % (mers, want_mer, h)))
     if not any(nums == sorted(base + a) for a in alts):
         errs.append(("numbers", "numbers %r, expected %r" % (nums, [sorted(base + a) for a in alts])))
+    elif not any(k == "month-name" for k, _ in errs):
+        # positional reading (the language's convention): English month, day-of-month, year; French day-of-month,
+        # month, year; then hour, minute, second.  The month slot is a name or a number.
+        seq = [("M", MO[lang].index(t)) if t in MO[lang] else ("n", int(t)) for t in toks if t.isdigit() or t in MO[lang]]
+        mslot = [("M", mo) if mos else ("n", mo)] if "month" in sel else []
+        dslot = [("n", d)] if "date" in sel else []
+        yslot = [("n", y)] if "year" in sel else []
+        dseq = (mslot + dslot + yslot) if lang == "en" else (dslot + mslot + yslot)
+        if not any(seq == dseq + [("n", v) for v in a] for a in alts):
+            def show(q):
+                return " ".join(MO[lang][v] if k == "M" else str(v) for k, v in q)
+            reading = ""
+            nd = len(dseq)
+            if dslot and mslot and len(seq) >= nd and all(k == "n" for k, _ in seq[:nd]):
+                names = (["month", "day"] if lang == "en" else ["day", "month"]) + (["year"] if yslot else [])
+                reading = "; read by the %s convention: %s" % (
+                    "English month/day" if lang == "en" else "French day/month",
+                    ", ".join("%s %d" % (n, v) for n, (_, v) in zip(names, seq[:nd])))
+            errs.append(("order", "fields printed in the order %r, the %s order is %r (date %04d-%02d-%02d, time %02d:%02d:%02d)%s"
+                         % (show(seq), "English" if lang == "en" else "French", show(dseq + [("n", v) for v in alts[0]]),
+                            y, mo, d, h, mi, s, reading)))
     return errs
 
 
@@ -779,7 +801,8 @@ def work(block):
                 for sig, c in signatures(l, k):
                     e = out["fails"].get(sig)
                     if e is None:
-                        out["fails"][sig] = {"n": 1, "input": c, "detail": detail, "first_seen": l}
+                        dd = [x for kk, x in kinds_of(c, impl_date(c)) if kk == k]
+                        out["fails"][sig] = {"n": 1, "input": c, "detail": dd[0] if dd else detail, "first_seen": l}
                     else:
                         e["n"] += 1
         else:
@@ -829,6 +852,8 @@ def run(ctx, deep=False):
         e = fails[sig]
         ctx.fail(sig, e["input"], "%s  [%d failing lines of this run have this signature; first seen on %s]"
                  % (e["detail"], e["n"], core.canon(e["first_seen"])))
+        if hasattr(ctx, "fail_counts"):
+            ctx.fail_counts[sig] = e["n"]      # lines of the sweep, not deduplicated calls
     ctx.notes["distribution"] = dict(sorted(dist.items()))
     ctx.notes["failing_lines_by_signature"] = {s: fails[s]["n"] for s in sorted(fails)}
     ctx.notes["blocks"] = len(blocks)
